@@ -48,6 +48,7 @@ type env struct {
 	alt     map[int]coin.Transactions // alt[k]: another transaction set valid at height k-1 (not the publisher's block k)
 	other   cipher.SecKey             // a key that is not the publisher's
 	f1      bool
+	hashes  map[[2]cipher.SHA256]int // (header hash, body hash) of the publisher's blocks
 	nfollow int
 	rng     *Rng
 }
@@ -108,7 +109,7 @@ type traceEntry struct {
 // runSchedule feeds the schedule to a fresh follower through the real process
 // method; returns the trace, the ids of the blocks held (publisher index or 0)
 // and whether each stored signature verifies.
-func (e *env) follower() (*vk.Node, *daemon.VerifC33Node, error) {
+func (e *env) follower(reqn uint64) (*vk.Node, *daemon.VerifC33Node, error) {
 	e.nfollow++
 	p := filepath.Join(e.dir, fmt.Sprintf("f%d.db", e.nfollow))
 	tmpl := filepath.Join(e.dir, "follower_template.db")
@@ -126,7 +127,12 @@ func (e *env) follower() (*vk.Node, *daemon.VerifC33Node, error) {
 	if err != nil {
 		return nil, nil, err
 	}
-	return n, &daemon.VerifC33Node{V: n.V, Cfg: daemon.NewDaemonConfig()}, nil
+	cfg := daemon.NewDaemonConfig()
+	if reqn > 0 { // the node's own request size and response cap; they must not limit what it ACCEPTS
+		cfg.GetBlocksRequestCount = reqn
+		cfg.MaxGetBlocksResponseCount = reqn + 2
+	}
+	return n, &daemon.VerifC33Node{V: n.V, Cfg: cfg}, nil
 }
 
 func (e *env) deliver(dn *daemon.VerifC33Node, n *vk.Node, msg []dblock) (traceEntry, error) {
@@ -170,10 +176,14 @@ func (e *env) held(n *vk.Node) (ids []string, sigs []string, err error) {
 			return nil, nil, fmt.Errorf("held block %d: %v", k, err)
 		}
 		id := 0
-		for j := 1; j < len(e.chain); j++ {
-			if e.chain[j].Block.HashHeader() == sb.Block.HashHeader() && e.chain[j].Block.Body.Hash() == sb.Block.Body.Hash() {
-				id = j
+		if e.hashes == nil {
+			e.hashes = map[[2]cipher.SHA256]int{}
+			for j := 1; j < len(e.chain); j++ {
+				e.hashes[[2]cipher.SHA256{e.chain[j].Block.HashHeader(), e.chain[j].Block.Body.Hash()}] = j
 			}
+		}
+		if j, ok := e.hashes[[2]cipher.SHA256{sb.Block.HashHeader(), sb.Block.Body.Hash()}]; ok {
+			id = j
 		}
 		ids = append(ids, fmt.Sprint(id))
 		sigs = append(sigs, B(sb.VerifySignature(e.w.Pub) == nil))
@@ -221,8 +231,8 @@ func schedString(s [][]dblock) string {
 }
 
 // one case: schedule, then a clean re-delivery of every valid block it contained
-func (e *env) oneCase(sched [][]dblock, each bool) (string, map[string]interface{}, error) {
-	n, dn, err := e.follower()
+func (e *env) oneCase(sched [][]dblock, each bool, reqn uint64) (string, map[string]interface{}, error) {
+	n, dn, err := e.follower(reqn)
 	if err != nil {
 		return "", nil, err
 	}
@@ -281,7 +291,8 @@ func (e *env) oneCase(sched [][]dblock, each bool) (string, map[string]interface
 	term := Tuple(B(e.f1), Z(dn.Cfg.GetBlocksRequestCount), coqSched(sched), coqTrace(tr), List(ids), List(sigs),
 		coqSched(re), coqTrace(tr2), List(ids2))
 	js := map[string]interface{}{"schedule": schedString(sched), "redelivery": schedString(re), "f1": e.f1,
-		"heads": fmt.Sprint(headsOf(tr)), "final_after_redelivery": len(ids2), "chain_len": len(e.chain) - 1}
+		"heads": fmt.Sprint(headsOf(tr)), "final_after_redelivery": len(ids2), "chain_len": len(e.chain) - 1,
+		"request_count": dn.Cfg.GetBlocksRequestCount, "response_cap": dn.Cfg.MaxGetBlocksResponseCount}
 	return term, js, nil
 }
 
@@ -342,7 +353,8 @@ func run(args []string) error {
 	if thorough {
 		nex = 5
 	}
-	nchain := 10
+	nchain := 23 // longer than GetBlocksRequestCount / MaxGetBlocksResponseCount (20) + 1
+	nrandTop := 10
 	w := vk.NewWorld([]byte(fmt.Sprintf("c33-%d", f.Seed)), 5)
 	pub, err := w.Open(filepath.Join(dir, "pub.db"), true)
 	if err != nil {
@@ -407,7 +419,7 @@ func run(args []string) error {
 
 	// probe F1 on this tree: does a follower accept a publisher-signed block 1 with another PrevHash?
 	{
-		n, dn, err := e.follower()
+		n, dn, err := e.follower(0)
 		if err != nil {
 			return err
 		}
@@ -421,8 +433,16 @@ func run(args []string) error {
 
 	var cases []string
 	var cj []map[string]interface{}
+	ncase := 0
 	add := func(sched [][]dblock, each bool, tag string) error {
-		term, js, err := e.oneCase(sched, each)
+		// the follower's own limits vary: default (20 / 20), or small (2-3 / 4-5) so that
+		// short messages already exceed them
+		ncase++
+		reqn := uint64(0)
+		if ncase%2 == 0 {
+			reqn = uint64(2 + ncase/2%2)
+		}
+		term, js, err := e.oneCase(sched, each, reqn)
 		if err != nil {
 			return err
 		}
@@ -490,10 +510,43 @@ func run(args []string) error {
 			}
 		}
 	}
+	// sizes: single messages longer than the node's own request count / response cap (and
+	// up to the whole chain), with blocks it already holds in front; what a node accepts
+	// depends on nothing but the message
+	run := func(a, b int) []dblock {
+		var m []dblock
+		for k := a; k <= b; k++ {
+			m = append(m, dblock{k, genuine})
+		}
+		return m
+	}
+	for _, held := range []int{0, 3} {
+		for _, ln := range []int{4, 6, 20, 21, nchain} {
+			var sched [][]dblock
+			if held > 0 {
+				sched = append(sched, run(1, held))
+			}
+			sched = append(sched, run(1, ln))
+			if err := add(sched, false, "size"); err != nil {
+				return err
+			}
+			if err := add(sched, true, "size"); err != nil { // the other limit setting
+				return err
+			}
+			// known blocks repeated in front of the new ones
+			sched2 := append([][]dblock{}, sched[:len(sched)-1]...)
+			sched2 = append(sched2, append(append(run(1, held), run(1, held)...), run(held+1, ln)...))
+			if held > 0 {
+				if err := add(sched2, false, "size"); err != nil {
+					return err
+				}
+			}
+		}
+	}
 	// random: longer chain, duplicates, drops, forged / mutated / re-signed blocks
 	nrand := f.Budget(150, 3000)
 	for c := 0; c < nrand; c++ {
-		top := 2 + r.Intn(nchain-1)
+		top := 2 + r.Intn(nrandTop-1)
 		nm := 1 + r.Intn(7)
 		var sched [][]dblock
 		for i := 0; i < nm; i++ {
@@ -538,7 +591,7 @@ func run(args []string) error {
 		nloop = 60
 	}
 	for c := 0; c < nloop; c++ {
-		n, dn, err := e.follower()
+		n, dn, err := e.follower(0)
 		if err != nil {
 			return err
 		}
@@ -548,7 +601,7 @@ func run(args []string) error {
 		pn := &daemon.VerifC33Node{V: pub.V, Cfg: daemon.NewDaemonConfig()}
 		pn.Cfg.MaxGetBlocksResponseCount = respn
 		// start: some prefix already held
-		pre := r.Intn(nchain)
+		pre := r.Intn(nrandTop)
 		for k := 1; k <= pre; k++ {
 			if err := n.V.ExecuteSignedBlock(e.chain[k]); err != nil {
 				return err
